@@ -62,6 +62,46 @@ def Coll.addN (cfg : Cfg M K R) (s : CState M R) (id : String) (msg : M) (wr : W
     (site : Site) (calls : List (COp M K)) : COut M × CState M R × List (CRes M) :=
   Coll.updateN cfg s id msg { wr with expectAbsent := true, createIfAbsent := true } site calls
 
+/-- the second half of `Delete`'s first attempt, under the write lock, on the Collection `s1` the check left:
+the very item that was read (`oldVal2 == oldVal`: here same stored time and `proto.Equal` body) is deleted;
+anything else (gone, replaced, written) sends Delete round its loop with what is stored now (four attempts
+left) -/
+def deleteSecond (cfg : Cfg M K R) (wr : WriteReq M K) (k : String) (it : Item M) (s1 : CState M R) :
+    COut M × CState M R :=
+  if sameItem cfg.ops (lookup s1.items k) (some it) then
+    ({ val := some it.body, err := none,
+       events := [{ id := k, time := s1.clock, kind := .remove, old := some it.body, new := none }],
+       idCalls := [], createdCalls := 0 },
+     { s1 with clock := s1.clock + cfg.tick, items := eraseItem s1.items k })
+  else deleteLoop cfg wr k 4 (lookup s1.items k) s1
+
+/-- `Collection.Delete(id, opts...)` whose expected check makes, on its first invocation, the calls `calls` on
+the same Collection (Delete has no before / after interceptor: at another site, without a check, or when the
+first read finds no item, nothing is called and this is `Coll.delete`).  The first attempt of the loop reads
+the item under the read lock, runs the check with no lock held - here the nested calls happen - and the
+expected-value test on the item it READ, then takes the write lock and looks the id up again: the very item
+it read (`oldVal2 == oldVal`: here same stored time and `proto.Equal` body) is deleted; anything else (gone,
+replaced, written) sends it round the loop with what is stored now (`deleteLoop`, four attempts left, whose
+checks make no calls: the wrapped check nests on its first invocation only). -/
+def Coll.deleteN (cfg : Cfg M K R) (s : CState M R) (id : String) (wr : WriteReq M K)
+    (site : Site) (calls : List (COp M K)) : COut M × CState M R × List (CRes M) :=
+  let k := icptId cfg id
+  match site, wr.expectedCheck, lookup s.items k with
+  | .chk, some chk, some it =>
+    let s1 := (Coll.run cfg s calls).2
+    let rs := (Coll.run cfg s calls).1
+    match chk (some it.body) with
+    | some e =>
+      ({ val := some it.body, err := some e, events := eventsOfC rs, idCalls := [], createdCalls := 0 }, s1, rs)
+    | none =>
+      if (match wr.expectedValue with | some ev => !(cfg.ops.eq it.body ev) | none => false) then
+        ({ val := some it.body, err := some .failedPrecondition, events := eventsOfC rs, idCalls := [],
+           createdCalls := 0 }, s1, rs)
+      else
+        let o := deleteSecond cfg wr k it s1
+        ({ o.1 with events := eventsOfC rs ++ o.1.events }, o.2, rs)
+  | _, _, _ => ((Coll.delete cfg s id wr).1, (Coll.delete cfg s id wr).2, [])
+
 /-! ### lemmas -/
 
 /-- the get closure of `Update` touches neither the contents nor the clock (only the rng, when it generates an id) -/
@@ -118,5 +158,100 @@ theorem nestedRunC_nil (cfg : Cfg M K R) (x : UNest M R) : nestedRunC cfg [] x =
 theorem updateTimeC_items (cfg : Cfg M K R) (wr : WriteReq M K) (st : CState M R) :
     (updateTimeC cfg wr st).2.items = st.items := by
   unfold updateTimeC nowC; cases wr.writeTime <;> rfl
+
+/-- a failing attempt loop of `Delete` started from what is stored leaves the Collection alone and emits nothing -/
+theorem deleteLoop_fail_frame (cfg : Cfg M K R) (h : EqRefl cfg.ops) (wr : WriteReq M K) (k : String) (fuel : Nat)
+    (s : CState M R) (hf : (deleteLoop cfg wr k (fuel + 1) (lookup s.items k) s).1.err ≠ none) :
+    (deleteLoop cfg wr k (fuel + 1) (lookup s.items k) s).2 = s ∧
+    (deleteLoop cfg wr k (fuel + 1) (lookup s.items k) s).1.events = [] := by
+  rw [deleteLoop_first cfg h] at hf ⊢
+  revert hf
+  cases lookup s.items k with
+  | none => intro _; simp only []; split <;> exact ⟨rfl, rfl⟩
+  | some it =>
+    simp only []
+    cases wr.expectedCheck with
+    | none =>
+      cases wr.expectedValue with
+      | none => intro hf; simp at hf
+      | some ev => cases hq : cfg.ops.eq it.body ev <;> simp [hq]
+    | some chk =>
+      cases hc : chk (some it.body) with
+      | some e => simp [hc]
+      | none =>
+        cases wr.expectedValue with
+        | none => intro hf; simp [hc] at hf
+        | some ev => cases hq : cfg.ops.eq it.body ev <;> simp [hc, hq]
+
+/-- a succeeding one finds nothing (allow-missing) or removes and returns what is stored -/
+theorem deleteLoop_ok (cfg : Cfg M K R) (h : EqRefl cfg.ops) (wr : WriteReq M K) (k : String) (fuel : Nat)
+    (s : CState M R) (hok : (deleteLoop cfg wr k (fuel + 1) (lookup s.items k) s).1.err = none) :
+    (lookup s.items k = none ∧ (deleteLoop cfg wr k (fuel + 1) (lookup s.items k) s).1.val = none ∧
+      (deleteLoop cfg wr k (fuel + 1) (lookup s.items k) s).2 = s ∧
+      (deleteLoop cfg wr k (fuel + 1) (lookup s.items k) s).1.events = []) ∨
+    (∃ it, lookup s.items k = some it ∧
+      (deleteLoop cfg wr k (fuel + 1) (lookup s.items k) s).1.val = some it.body ∧
+      (deleteLoop cfg wr k (fuel + 1) (lookup s.items k) s).2 =
+        { s with clock := s.clock + cfg.tick, items := eraseItem s.items k } ∧
+      (deleteLoop cfg wr k (fuel + 1) (lookup s.items k) s).1.events =
+        [{ id := k, time := s.clock, kind := .remove, old := some it.body, new := none }]) := by
+  rw [deleteLoop_first cfg h] at hok ⊢
+  revert hok
+  cases hl : lookup s.items k with
+  | none => intro hok; left; simp only [] at hok ⊢; split <;> simp_all
+  | some it =>
+    simp only []
+    intro hok
+    right
+    refine ⟨it, rfl, ?_⟩
+    revert hok
+    cases wr.expectedCheck with
+    | none =>
+      cases wr.expectedValue with
+      | none => intro _; simp
+      | some ev => cases hq : cfg.ops.eq it.body ev <;> simp [hq]
+    | some chk =>
+      cases hc : chk (some it.body) with
+      | some e => simp [hc]
+      | none =>
+        cases wr.expectedValue with
+        | none => intro _; simp [hc]
+        | some ev => cases hq : cfg.ops.eq it.body ev <;> simp [hc, hq]
+
+theorem deleteSecond_fail_frame (cfg : Cfg M K R) (h : EqRefl cfg.ops) (wr : WriteReq M K) (k : String)
+    (it : Item M) (s1 : CState M R) (hf : (deleteSecond cfg wr k it s1).1.err ≠ none) :
+    (deleteSecond cfg wr k it s1).2 = s1 ∧ (deleteSecond cfg wr k it s1).1.events = [] := by
+  unfold deleteSecond at hf ⊢
+  cases hsame : sameItem cfg.ops (lookup s1.items k) (some it) with
+  | true => simp [hsame] at hf
+  | false =>
+    simp only [hsame, Bool.false_eq_true, ↓reduceIte] at hf ⊢
+    exact deleteLoop_fail_frame cfg h wr k 3 s1 hf
+
+theorem deleteSecond_ok (cfg : Cfg M K R) (h : EqRefl cfg.ops) (wr : WriteReq M K) (k : String)
+    (it : Item M) (s1 : CState M R) (hok : (deleteSecond cfg wr k it s1).1.err = none) :
+    (lookup s1.items k = none ∧ (deleteSecond cfg wr k it s1).1.val = none ∧
+      (deleteSecond cfg wr k it s1).2 = s1 ∧ (deleteSecond cfg wr k it s1).1.events = []) ∨
+    (∃ cur b, lookup s1.items k = some cur ∧ cfg.ops.eq cur.body b = true ∧
+      (deleteSecond cfg wr k it s1).1.val = some b ∧
+      (deleteSecond cfg wr k it s1).2 = { s1 with clock := s1.clock + cfg.tick, items := eraseItem s1.items k } ∧
+      (deleteSecond cfg wr k it s1).1.events =
+        [{ id := k, time := s1.clock, kind := .remove, old := some b, new := none }]) := by
+  unfold deleteSecond at hok ⊢
+  cases hsame : sameItem cfg.ops (lookup s1.items k) (some it) with
+  | true =>
+    right
+    simp only [↓reduceIte]
+    cases hcur : lookup s1.items k with
+    | none => rw [hcur] at hsame; simp [sameItem] at hsame
+    | some cur =>
+      rw [hcur] at hsame
+      simp only [sameItem, Bool.and_eq_true] at hsame
+      refine ⟨cur, it.body, ?_, hsame.2, ?_, ?_, ?_⟩ <;> first | rfl | trivial
+  | false =>
+    simp only [hsame, Bool.false_eq_true, ↓reduceIte] at hok ⊢
+    rcases deleteLoop_ok cfg h wr k 3 s1 hok with h1 | ⟨cur, h1, h2, h3, h4⟩
+    · exact Or.inl h1
+    · exact Or.inr ⟨cur, cur.body, h1, h _, h2, h3, h4⟩
 
 end ScVerif.C01
